@@ -58,6 +58,17 @@ type IdxCase struct {
 
 func idOf(i int) uuid.UUID {
 	var u uuid.UUID
+	// two legal but unusual ids are part of every id universe: all zero (the nil uuid,
+	// which code likes to use as "none") and all ones
+	switch i {
+	case 0:
+		return u
+	case 1:
+		for k := range u {
+			u[k] = 0xff
+		}
+		return u
+	}
 	r := simrt.NewRand(uint64(i)*2654435761 + 17)
 	binary.LittleEndian.PutUint64(u[:8], r.Uint64())
 	binary.LittleEndian.PutUint64(u[8:], r.Uint64())
